@@ -240,6 +240,7 @@ class ANF:
         self._depth = 0
         self._stack = frozenset()
         self._localfns = {}
+        self._aug = None
 
     # ------------------------------------------------------------------ driver
     def run(self):
@@ -253,6 +254,15 @@ class ANF:
 
     def ev(self, kind, node, cond, loops, **kw):
         self._seq += 1
+        if cond:
+            facts = _facts_of(cond, self.res)
+            if facts:
+                # conditional values whose condition is decided by the path condition of this event are resolved
+                memo = self.res.__dict__.setdefault("_ite_memo", {}).setdefault(id(facts), {})
+                for k_ in list(kw):
+                    v = kw[k_]
+                    if isinstance(v, tuple):
+                        kw[k_] = _resolve_ite(v, facts, memo)
         e = Event(kind, self._seq, node, cond, loops, **kw)
         self.res.events.append(e)
         return e
@@ -261,8 +271,12 @@ class ANF:
     def block(self, stmts, env, cond, loops):
         """returns True when the block always leaves the function (return / raise)"""
         for s in stmts:
-            if self.stmt(s, env, cond, loops):
+            r = self.stmt(s, env, cond, loops)
+            if r is True:
                 return True
+            if isinstance(r, tuple):
+                # one arm of an `if` left (return / raise / continue / break): the rest runs under the other arm's condition
+                cond = cond + (r,)
         return False
 
     def stmt(self, s, env, cond, loops):
@@ -277,8 +291,13 @@ class ANF:
             return False
         if isinstance(s, ast.AugAssign):
             cur = self.eval(_load(s.target), env, cond, loops)
-            v = self.binop(s.op, cur, self.eval(s.value, env, cond, loops))
-            self.assign(s.target, v, env, cond, loops, s, aug=True)
+            operand = self.eval(s.value, env, cond, loops)
+            v = self.binop(s.op, cur, operand)
+            self._aug = (AC_OPS.get(type(s.op)) or BIN_OPS.get(type(s.op)), operand)
+            try:
+                self.assign(s.target, v, env, cond, loops, s, aug=True)
+            finally:
+                self._aug = None
             return False
         if isinstance(s, ast.Expr):
             if isinstance(s.value, ast.Constant):
@@ -307,10 +326,10 @@ class ANF:
                 return True
             if x1:
                 env.clear(); env.update(e2)
-                return False
+                return (t, False)
             if x2:
                 env.clear(); env.update(e1)
-                return False
+                return (t, True)
             for k in set(e1) | set(e2):
                 a, b = e1.get(k), e2.get(k)
                 if a is None or b is None:
@@ -349,8 +368,10 @@ class ANF:
                 self.block(s.orelse, env, cond, loops)
             self.block(s.finalbody, env, cond, loops)
             return False
+        if isinstance(s, (ast.Break, ast.Continue)):
+            return True         # leaves the rest of the loop body
         if isinstance(s, (ast.Pass, ast.Import, ast.ImportFrom, ast.Global, ast.Nonlocal, ast.Assert, ast.Delete,
-                          ast.FunctionDef, ast.ClassDef, ast.Break, ast.Continue)):
+                          ast.FunctionDef, ast.ClassDef)):
             if isinstance(s, ast.FunctionDef):
                 k_ = "%s@%d" % (s.name, len(self._localfns))
                 self._localfns[k_] = s
@@ -364,6 +385,7 @@ class ANF:
     def loop(self, s, env, cond, loops):
         self._loop += 1
         lid = self._loop
+        at_least_once = False
         if isinstance(s, ast.For):
             it = self.eval(s.iter, env, cond, loops)
             # literal sequence of constants / tuples: unroll
@@ -373,7 +395,9 @@ class ANF:
                     self.block(s.body, env, cond, loops)
                 return
         else:
-            it = ("while", self.eval(s.test, dict(env), cond, loops))
+            t0 = self.eval(s.test, dict(env), cond, loops)
+            it = ("while", t0)
+            at_least_once = truth(t0) is True
         assigned = _assigned_names(s.body)
         read_first = _names_read(s.body)
         for nm in assigned:
@@ -391,10 +415,14 @@ class ANF:
         self.block(s.body, e2, cond, inner)
         self.res.loops[lid]["env"] = e2
         for nm in assigned:
-            env[nm] = ("phi", lid, nm)
+            v = e2.get(nm)
+            if at_least_once and v is not None and not _mentions_loop(v, lid):
+                env[nm] = v         # the body runs at least once and binds the name to a loop-invariant value
+            else:
+                env[nm] = ("phi", lid, nm)
         for nm, v in e2.items():
             if nm not in env:
-                env[nm] = ("phi", lid, nm)
+                env[nm] = v if (at_least_once and not _mentions_loop(v, lid)) else ("phi", lid, nm)
         if s.orelse:
             self.block(s.orelse, env, cond, loops)
 
@@ -423,7 +451,8 @@ class ANF:
         if isinstance(t, ast.Subscript):
             base = self.eval(t.value, env, cond, loops)
             idx = self.index_term(t.slice, env, cond, loops)
-            self.ev("store", stmt, cond, loops, base=base, index=idx, value=v, aug=aug, target=t)
+            self.ev("store", stmt, cond, loops, base=base, index=idx, value=v, aug=aug, target=t,
+                    aug_op=(self._aug[0] if aug and self._aug else None), aug_operand=(self._aug[1] if aug and self._aug else None))
             # functional update of local arrays so later reads see the scatter
             root = t.value
             if isinstance(root, ast.Name) and root.id in env:
@@ -667,10 +696,12 @@ class ANF:
             raise Unsupported("comprehension target")
 
     def binop(self, op, a, b):
-        if isinstance(op, ast.Add) and (_listlike(a) or _listlike(b)):
+        if isinstance(op, ast.Add) and (_listlike(a) or _listlike(b) or (_fn_output(a) and _fn_output(b))):
             if a[0] in ("list", "tuple") and b[0] in ("list", "tuple"):
                 return (a[0], a[1] + b[1])
-            return ("op", "++", a, b)          # sequence concatenation is ordered
+            # sequence concatenation is ordered; the sum of two outputs of repository functions may be one (their type is not
+            # known here), so its operand order is kept as well
+            return ("op", "++", a, b)
         if isinstance(op, ast.Mult) and (_listlike(a) or _listlike(b)):
             return ("op", "**rep", a, b)        # sequence repetition
         if type(op) in AC_OPS:
@@ -936,6 +967,52 @@ class ANF:
         return out
 
 
+def _facts_of(cond, res):
+    """{key(condition term): truth value} implied by a path condition: conjuncts of a true `and`, disjuncts of a false `or`"""
+    cache = res.__dict__.setdefault("_facts", {})
+    hit = cache.get(id(cond))
+    if hit is not None and hit[0] is cond:
+        return hit[1]
+    facts = {}
+
+    def add(c, pol, depth=0):
+        if not isinstance(c, tuple) or not c or depth > 6:
+            return
+        while c[0] == "u" and c[1] == "not":
+            c, pol = c[2], not pol
+        facts[key(c)] = pol
+        if c[0] == "bool" and ((c[1] == "and" and pol) or (c[1] == "or" and not pol)):
+            for x in c[2]:
+                add(x, pol, depth + 1)
+    for c, pol in cond:
+        add(c, pol)
+    cache[id(cond)] = (cond, facts)
+    return facts
+
+
+def _resolve_ite(t, facts, memo):
+    if not isinstance(t, tuple) or not t:
+        return t
+    r = memo.get(id(t))
+    if r is not None and r[0] is t:
+        return r[1]
+    if t[0] == "ite" and len(t) == 4:
+        c = t[1]
+        pol = True
+        while isinstance(c, tuple) and c and c[0] == "u" and c[1] == "not":
+            c, pol = c[2], not pol
+        v = facts.get(key(c))
+        if v is not None:
+            out = _resolve_ite(t[2] if v == pol else t[3], facts, memo)
+            memo[id(t)] = (t, out)
+            return out
+    out = tuple(_resolve_ite(x, facts, memo) if isinstance(x, tuple) else x for x in t)
+    if all(a is b for a, b in zip(out, t)):
+        out = t
+    memo[id(t)] = (t, out)
+    return out
+
+
 def _negated(t):
     """x when t is ~x / not x / (a != b -> a == b); None otherwise"""
     if isinstance(t, tuple) and t:
@@ -1021,9 +1098,31 @@ def _listlike(t):
     return False
 
 
+def _mentions_loop(t, lid):
+    for x in walk(t):
+        if (x[0] == "loop" and len(x) >= 2 and x[1] == lid) or (x[0] == "carried" and len(x) == 4 and x[3] == lid) \
+                or (x[0] == "phi" and x[1] == lid):
+            return True
+    return False
+
+
+def _fn_output(t):
+    return isinstance(t, tuple) and t and t[0] == "proj" and t[1][0] == "call" and t[1][1][0] == "f"
+
+
 def truth(t):
     if is_const(t):
         return bool(t[1]) if t[1] != "nan" else None
+    if isinstance(t, tuple) and t and t[0] == "bool":
+        # `x and False` is falsy whatever x is; `x or True` is truthy
+        tv = [truth(x) for x in t[2]]
+        if t[1] == "and" and any(v is False for v in tv):
+            return False
+        if t[1] == "or" and any(v is True for v in tv):
+            return True
+    if isinstance(t, tuple) and t and t[0] == "u" and t[1] == "not":
+        v = truth(t[2])
+        return None if v is None else (not v)
     return None
 
 
